@@ -144,7 +144,7 @@ theorem skip_glo_sbas (T : Tables) (st : St) (l1 : Str) (rest : List Str) (ld1 :
     unfold head3
     rw [hnoalpha]
     rcases hsys with h | h <;> simp [h]
-  simp [this]
+  simp [headOf, this]
 
 /-! ## 4. Week cross-over -/
 
